@@ -1,11 +1,9 @@
-from props import _irb
-LEVEL = 'exploration'
+from props import _irp
+LEVEL = 'proof'
 PID = 'C01'
 
 def run(rep, tier, seed):
-    rep.explanation = 'bounded stand-in only (proof tier not yet wired)'
-    fails = _irb.run_histories(rep, PID, tier, seed)
-    _irb.report_failures(rep, PID, fails)
+    _irp.run(rep, PID, tier, seed, 'I1 (containment) and I2 (pin-wire) clauses of Inv, typing/closedness, permutation of reorder setters: proved preserved by every public IR mutator on every exit (P), closed world by S-rules; random histories as bounded cross-check (B)')
 
 def replay(path):
-    return _irb.replay(path, PID)
+    return _irp.replay(path, PID)
